@@ -509,6 +509,37 @@ func apiSnapshot(d []byte) string {
 	return sb.String()
 }
 
+// readerSnapshot: ReadObject / ReadArray through a caller-owned reader and through the one-shot
+// package functions, printed canonically
+func readerSnapshot(rd *rjson.ValueReader, d []byte) string {
+	var sb strings.Builder
+	o1, p, err := rd.ReadObject(d)
+	if err == nil {
+		fmt.Fprintf(&sb, "|%s %d", canon(map[string]interface{}(o1)), p)
+	} else {
+		fmt.Fprintf(&sb, "|err")
+	}
+	o2, p, err := rjson.ReadObject(d)
+	if err == nil {
+		fmt.Fprintf(&sb, "|%s %d", canon(map[string]interface{}(o2)), p)
+	} else {
+		fmt.Fprintf(&sb, "|err")
+	}
+	a1, p, err := rd.ReadArray(d)
+	if err == nil {
+		fmt.Fprintf(&sb, "|%s %d", canon([]interface{}(a1)), p)
+	} else {
+		fmt.Fprintf(&sb, "|err")
+	}
+	a2, p, err := rjson.ReadArray(d)
+	if err == nil {
+		fmt.Fprintf(&sb, "|%s %d", canon([]interface{}(a2)), p)
+	} else {
+		fmt.Fprintf(&sb, "|err")
+	}
+	return sb.String()
+}
+
 func cmdRace(args []string) {
 	seed, _ := strconv.ParseUint(args[1], 10, 64)
 	r := &rng{s: seed*0x9e3779b97f4a7c15 + 11}
@@ -556,6 +587,9 @@ func cmdRace(args []string) {
 				perWorker[w*64] += strings.Count(got, "|") + 3
 				v, _, _ := rd.ReadValue(docs[i])
 				v2, _, _ := rjson.ReadValue(docs[i])
+				// the goroutine's own reused reader next to the one-shot functions (which may draw on
+				// package-level pools): typed entry points, failing calls included
+				got += readerSnapshot(rd, docs[i])
 				results[w][i] = got
 				vals[w][i] = reflect.DeepEqual(v, v2)
 			}
@@ -569,7 +603,7 @@ func cmdRace(args []string) {
 	// sequential reference afterwards
 	mism := 0
 	for i, d := range docs {
-		want := apiSnapshot(d)
+		want := apiSnapshot(d) + readerSnapshot(&rjson.ValueReader{}, d)
 		for w := 0; w < workers; w++ {
 			if results[w][i] != "" && (results[w][i] != want || !vals[w][i]) {
 				mism++
